@@ -30,6 +30,11 @@ RUSTFLAGS="$FLAGS" CARGO_TARGET_DIR=/tmp/seed_target${FLAGS:+_verif} timeout 180
 git apply $SRC/patch.diff
 rm -f tests/seeded_demo.rs
 if [ -n "$CHECKS" ]; then
+  # bring the scratch tree up to /repo's working tree (uncommitted hook blocks of checks being built), then the seed on top
+  git apply -R $SRC/patch.diff
+  git -C /repo diff > /tmp/seed_wip_$NAME.patch
+  [ -s /tmp/seed_wip_$NAME.patch ] && (git apply /tmp/seed_wip_$NAME.patch || echo "WIP-OVERLAY-FAILED")
+  git apply $SRC/patch.diff || echo "PATCH-DOES-NOT-APPLY-ON-WORKING-TREE"
   HX=/tmp/seedhx
   mkdir -p $HX
   rsync -a --delete --exclude target /verif/harness/ $HX/
